@@ -146,7 +146,46 @@ static void op_scan_partial(int argc, char **argv)
   else { FILE *fp = fmemopen(n ? (void *)sb : (void *)"", n ? n : 1, "rb"); if (!n) fgetc(fp); cnt = gmp_fscanf(fp, "%Zd %Zd %Zd", z[0], z[1], z[2]); fclose(fp); }
   outl(cnt); for (int i = 0; i < 3; i++) { out_zv(z[i]); if (!z_wf(z[i])) outs("BADFORMAT"); mpz_clear(z[i]); }
 }
-const op_t ops_printf[] = { {"gmp_printf_Z", op_printf_Z}, {"gmp_printf_Q", op_printf_Q}, {"gmp_printf_N", op_printf_N}, {"gmp_printf_M", op_printf_M},
+/* gmp_doscan x:format x:input x:slots mode : one call with up to 8 pointer arguments whose kinds are given by the slot letters
+   (Z mpz, Q mpq, l long, d int, h short, c char).  mode 0: the string reader (__gmp_doscan with the functions of gmp_sscanf, so that
+   the final position in the string is observable); mode 1: gmp_fscanf on a stream, the position taken with ftell afterwards
+   (every byte read ahead must have been pushed back); mode 2: gmp_sscanf itself (position printed as in mode 0 by a second call).
+   Output: return value, bytes consumed, the content of every argument afterwards. */
+#include <stdarg.h>
+static int dosc(const char **sp, const char *fmt, ...)
+{ va_list ap; va_start(ap, fmt); int r = __gmp_doscan(&__gmp_sscanf_funs, (void *) sp, fmt, ap); va_end(ap); return r; }
+static void op_gmp_doscan(int argc, char **argv)
+{
+  (void)argc;
+  static __thread unsigned char fb[1 << 12], ib[1 << 12], sl[16];
+  size_t nf = unhexs(argv[1], fb, sizeof fb - 1); fb[nf] = 0;
+  size_t ni = unhexs(argv[2], ib, sizeof ib - 1); ib[ni] = 0;
+  size_t ns = unhexs(argv[3], sl, 8); int mode = (int)arg_l(argv[4]);
+  mpz_t z[8]; mpq_t q[8]; long l[8]; int d[8]; short h[8]; signed char c[8]; void *p[8];
+  for (int i = 0; i < 8; i++) {
+    mpz_init_set_ui(z[i], 77777); mpq_init(q[i]); mpz_set_ui(mpq_numref(q[i]), 77777); mpz_set_ui(mpq_denref(q[i]), 7);
+    l[i] = 0x5A5A5A5A5A5A5A5AL; d[i] = 0x5A5A5A5A; h[i] = 0x5A5A; c[i] = 0x5A; p[i] = z[i];
+    if ((size_t)i < ns) switch (sl[i]) { case 'Z': p[i] = z[i]; break; case 'Q': p[i] = q[i]; break; case 'l': p[i] = &l[i]; break;
+                                         case 'd': p[i] = &d[i]; break; case 'h': p[i] = &h[i]; break; default: p[i] = &c[i]; }
+  }
+  int ret; long pos;
+  if (mode == 1 && ni > 0 && strlen((char *)ib) == ni) {
+    FILE *fp = fmemopen(ib, ni, "rb");
+    ret = gmp_fscanf(fp, (char *)fb, p[0], p[1], p[2], p[3], p[4], p[5], p[6], p[7]);
+    pos = ftell(fp); fclose(fp);
+  } else {
+    const char *s = (char *)ib;
+    ret = dosc(&s, (char *)fb, p[0], p[1], p[2], p[3], p[4], p[5], p[6], p[7]);
+    pos = (long)(s - (char *)ib);
+  }
+  outl(ret); outl(pos);
+  for (size_t i = 0; i < ns; i++) switch (sl[i]) {
+    case 'Z': out_zv(z[i]); if (!z_wf(z[i])) outs("BADFORMAT"); break;
+    case 'Q': out_zv(mpq_numref(q[i])); out_zv(mpq_denref(q[i])); if (!z_wf(mpq_numref(q[i])) || !z_wf(mpq_denref(q[i]))) outs("BADFORMAT"); break;
+    case 'l': outl(l[i]); break; case 'd': outl(d[i]); break; case 'h': outl(h[i]); break; default: outl(c[i]); }
+  for (int i = 0; i < 8; i++) { mpz_clear(z[i]); mpq_clear(q[i]); }
+}
+const op_t ops_printf[] = { {"gmp_doscan", op_gmp_doscan}, {"gmp_printf_Z", op_printf_Z}, {"gmp_printf_Q", op_printf_Q}, {"gmp_printf_N", op_printf_N}, {"gmp_printf_M", op_printf_M},
                             {"gmp_snprintf_sweep", op_snprintf_sweep}, {"gmp_printf_mixed", op_printf_mixed}, {"gmp_scan_rt", op_scan_rt},
                             {"gmp_scan_partial", op_scan_partial}, {NULL, NULL} };
 /* gmp_printf_F spec conv precbits mant exp2 : "%<spec>F<conv>" of mant * 2^exp2 held exactly: output bytes, return value */
